@@ -44,6 +44,9 @@ package cmd
 //@ func ti/cmd.isParentClass
 //@   safe
 //@   terminates[C04]
+//@   # the walk continues at each parent node exactly as the inheritance table records it (its frame,
+//@   # class and the kind of edge) and keeps the kind of receiver
+//@   callsite[C23] isParentClass a_sig == sig && a_frame == parentNode.Frame && a_class == parentNode.Class && a_isStaticTarget == isStaticTarget && a_isExtend == parentNode.IsExtend && a_isInclude == parentNode.IsInclude
 //@   ensures[C23] sig.IsStatic != isStaticTarget ==> !result
 //@   ensures[C23] sig.Method == "new" ==> !result
 //@   ensures[C23] (isExtend && !isStaticTarget) || (isInclude && isStaticTarget) ==> !result
